@@ -100,6 +100,7 @@ def sphere_rule(prog, rep, fn, b, beta):
         t = b.def_term(d)
         pc = pcs.of(d.stmt)
         site = fn.where(d.stmt)
+        # (an in-place ``points *= beta`` on a freshly built, unshared NSphere array is behaviour preserving; sharing is C01.nsphere:own-points)
         if not (t[0] == "bin" and t[1] == "*"):
             rep.fail("C01.sphere", f"{q}:scale", site, f"sphere points must be beta * unit directions, found {show(t)[:120]}")
             continue
@@ -208,7 +209,7 @@ def run(prog, rep):
     rep.expect_min("C01.chain", 9)
     rep.expect_min("C01.tm", 2)
     rep.expect_min("C01.result", 4)
-    rep.expect_min("C01.nsphere", 6)
+    rep.expect_min("C01.nsphere", 7)
 
 
 def tm_rule(prog, rep, fn, b, pmat):
@@ -261,6 +262,26 @@ def nsphere(prog, rep):
                 st_n = v == ("param", "n_samples")
     rep.check(st_dim and st_n, "C01.nsphere", f"{NS}.__init__:dims", init.where(), "self.dim = dim, self.n_samples = n_samples",
               "NSphere must store dim and n_samples under their own names (swapping them transposes the point set)")
+    # every instance relaxes its own freshly generated points: no point set is shared between instances
+    from vstat.effects import Effects
+    eff = Effects(prog)
+    shared = []
+    n_st = 0
+    for mname, m in prog.cls(NS).methods.items():
+        bm = builder(prog, m, inline=False)
+        for st in cfg_of(m).all_stmts():
+            if isinstance(st, ast.Assign):
+                for tg in st.targets:
+                    if isinstance(tg, ast.Attribute) and tg.attr == "unit_sphere_points" and isinstance(tg.value, ast.Name) and tg.value.id == "self":
+                        n_st += 1
+                        org = eff.origins(bm.term(st.value, st), m)
+                        org = {o for o in org if o != ("selfattr", "unit_sphere_points")}
+                        if org:
+                            shared.append(f"{mname}:{st.lineno} <- {sorted(org)}")
+    relax = [st for st in cfg_of(init).all_stmts() if isinstance(st, ast.Expr) and isinstance(st.value, ast.Call) and isinstance(st.value.func, ast.Attribute) and st.value.func.attr == "_relax_points"]
+    uncond = len(relax) == 1 and cfg_of(init).dominates(cfg_of(init).node(relax[0]), EXIT)
+    rep.check(not shared and uncond and n_st >= 2, "C01.nsphere", f"{NS}:own-points", init.where(), "each NSphere owns freshly generated, freshly relaxed points",
+              f"the point set of an NSphere must be generated and relaxed for this instance (no cache / shared array): shared sources {shared}; relaxation unconditional={uncond}")
     rnd = prog.func(f"{NS}._random_unit_sphere_points")
     rep.analysed(rnd)
     br = builder(prog, rnd)
